@@ -19,6 +19,9 @@ type CrashResult struct {
 	Ver       int64
 	Hash      string
 	Err       string // anything that went wrong before the crash point (reported, never judged here)
+	// Panic: the real Commit itself panicked before the crash point was reached (real-code
+	// behaviour, as opposed to Err = the experiment could not be set up)
+	Panic string
 }
 
 func CrashRun(pre *dbm.MemDB, cfg Cfg, pending []WOp, k int) CrashResult {
@@ -41,7 +44,7 @@ func CrashRun(pre *dbm.MemDB, cfg Cfg, pending []WOp, k int) CrashResult {
 	case crash != nil:
 		r.Next = "?"
 	case perr != "":
-		r.Err = "commit: " + perr
+		r.Panic = "commit: " + perr
 	default:
 		r.Completed = true
 		r.Next = "end"
@@ -150,6 +153,13 @@ func Faults(pre *dbm.MemDB, cfg Cfg, pending []WOp, preVer int64, withLoads bool
 			if r.Err != "" {
 				e["err"] = r.Err
 				out = append(out, e)
+				continue
+			}
+			if r.Panic != "" {
+				// the process died inside Commit on its own: nothing more to enumerate
+				e["panic"] = r.Panic
+				out = append(out, e)
+				last = true
 				continue
 			}
 			rec := Recover(r.Durable, cfg, pending, preVer, preVer+1, withLoads)
